@@ -15,8 +15,10 @@
    * A position in the input text is a pair (offset, remaining suffix); every
      read content[offset] of the C++ is guarded by offset < end_offset, which is
      "the suffix is not empty" here.
-   * The destination stream is the list of its code units; an access outside
-     [0, Length) is [Err (EOob site)].
+   * The destination stream is the list of its code units.  The formatters
+     address it relative to started_at (the length before the number was
+     written); the model runs them on the digit run alone, so an access outside
+     [started_at, Length) is [Err (EOob site)] (never observed).
    * SizeT / SizeT32 arithmetic that can wrap is written with add32 / sub32.  *)
 From Coq Require Import NArith List Bool.
 From Qv Require Import gen.Tables_digit.
@@ -275,17 +277,82 @@ Definition power_of_negative_ten (number exponent : N) : res N :=
 Definition sign_bit : N := 9223372036854775808.
 Definition nan_res (num off : N) : pres := mkPres qn_nan num off.
 
-Definition string_to_number (content : list N) : res pres :=
-  match content with
-  | [] => Ok (nan_res 0 0)
-  | c0 :: r0 =>
-    let '(is_neg, off0, rest0) :=
-      if c0 =? ch_neg then (true, 1, r0) else if c0 =? ch_pos then (false, 1, r0) else (false, 0, content) in
-    let endo := N.of_nat (length content) in
-    let win o := if endo - o <? 19 then endo else o + 19 in
-    match rest0 with
-    | [] => Ok (nan_res 0 off0)
-    | d :: r1 =>
+(* everything after the mantissa loop: the 20th digit, the integer results, the
+   scan of the remaining digits / point / exponent, and the scaling *)
+Definition stn_after (is_neg : bool) (start : N) (fraconly : bool) (s : st) : res pres :=
+    let tmp := s_off s in
+    (* ---- 20th digit ---- *)
+    let '(s2, tmp2) :=
+      if negb (s_isreal s) then
+        match s_rest s with
+        | [] => (s, tmp)
+        | dg :: r =>
+          if (dg =? ch_dot) || (dg =? ch_e) || (dg =? ch_ue)
+          then (mkSt (s_off s) (s_rest s) (s_num s) dg (s_dot s) true (s_hasdot s), tmp)
+          else if is_digit dg then
+            if (1844674407370955161 <? s_num s) || ((s_num s =? 1844674407370955161) && (ch_five <? dg))
+            then (mkSt (s_off s) (s_rest s) (s_num s) dg (s_dot s) true (s_hasdot s), tmp)
+            else
+              let n1 := m64 (s_num s * 10 + dg - ch_zero) in
+              let real1 := match r with
+                           | [] => false
+                           | d2 :: _ => (d2 =? ch_dot) || (d2 =? ch_e) || (d2 =? ch_ue) || is_digit d2
+                           end in
+              (mkSt (s_off s + 1) r n1 (match r with [] => dg | d2 :: _ => d2 end) (s_dot s) real1 (s_hasdot s), tmp + 1)
+          else (mkSt (s_off s) (s_rest s) (s_num s) dg (s_dot s) false (s_hasdot s), tmp)
+        end
+      else (s, tmp) in
+    let num := s_num s2 in
+    let int_result : option pres :=
+      if negb (s_isreal s2) then
+        if negb is_neg then Some (mkPres qn_natural num (s_off s2))
+        else if num =? 0 then Some (mkPres qn_real sign_bit (s_off s2))
+        else if num <=? sign_bit then Some (mkPres qn_integer (m64 (two64 - num)) (s_off s2))
+        else None
+      else None in
+    match int_result with
+    | Some p => Ok p
+    | None =>
+      let e_p10 := sub32 (sub32 tmp2 start) (b2n (negb fraconly && s_hasdot s2)) in
+      let e_n10 := if fraconly then add32 e_p10 (sub32 (sub32 start (s_dot s2)) 1)
+                   else if s_hasdot s2 then sub32 (sub32 (s_off s2) (s_dot s2)) 1 else 0 in
+      let old_dot := s_dot s2 in
+      let start2 := s_off s2 in
+      match tail_scan (s_rest s2) (mkTail (s_off s2) (s_hasdot s2) (s_dot s2) 0 0 false) with
+      | None => Ok (nan_res num 0)
+      | Some t =>
+        let off := t_off t in
+        let '(exponent1, negexp1) :=
+          if negb fraconly && negb (start2 =? off) then
+            let extra :=
+              if negb (t_hasdot t) then (if t_expoff t =? 0 then sub32 off start2 else sub32 (t_expoff t) start2)
+              else if negb (t_dot t =? old_dot) then sub32 (t_dot t) start2 else 0 in
+            if negb (t_negexp t) then (add32 (t_exp t) extra, false)
+            else if t_exp t <=? extra then (sub32 extra (t_exp t), false)
+            else (sub32 (t_exp t) extra, true)
+          else (t_exp t, t_negexp t) in
+        let '(exponent, negexp) :=
+          if negexp1 then (add32 exponent1 e_n10, true)
+          else if e_n10 <=? exponent1 then (sub32 exponent1 e_n10, false)
+          else (sub32 e_n10 exponent1, true) in
+        let fin (bits : N) := Ok (mkPres qn_real (if is_neg then N.lor bits sign_bit else bits) off) in
+        if num =? 0 then fin 0
+        else if negb negexp && (309 <? add32 exponent e_p10) then Ok (nan_res num off)
+        else if negexp then
+          if (e_p10 <? exponent) && (324 <? sub32 exponent e_p10) then Ok (nan_res num off)
+          else do b <- power_of_negative_ten num exponent; fin b
+        else
+          do ob <- power_of_positive_ten num exponent;
+          match ob with Some b => fin b | None => Ok (nan_res num off) end
+      end
+    end.
+
+(* the numeral after the optional sign: [off0] code units consumed, [rest0] left, [endo] = end_offset *)
+Definition stn_body (is_neg : bool) (off0 : N) (rest0 : list N) (endo : N) : res pres :=
+  let win o := if endo - o <? 19 then endo else o + 19 in
+  match rest0 with
+  | [] => Ok (nan_res 0 off0)
+  | d :: r1 =>
       (* ---- first character ---- *)
       let first : res (pres + (st * N * N * bool)) :=   (* state, max_end_offset, start_offset, fraction_only *)
         if is_nz_digit d then
@@ -328,79 +395,22 @@ Definition string_to_number (content : list N) : res pres :=
       match f1 with
       | inl p => Ok p
       | inr (s0, maxend, start, fraconly) =>
-        match main_loop (S (length content)) maxend s0 with
+        match main_loop (S (N.to_nat endo)) maxend s0 with
         | LFuel => Err EFuel
         | LNaN => Ok (nan_res 0 0)
-        | LOk s =>
-          let tmp := s_off s in
-          (* ---- 20th digit ---- *)
-          let '(s2, tmp2) :=
-            if negb (s_isreal s) then
-              match s_rest s with
-              | [] => (s, tmp)
-              | dg :: r =>
-                if (dg =? ch_dot) || (dg =? ch_e) || (dg =? ch_ue)
-                then (mkSt (s_off s) (s_rest s) (s_num s) dg (s_dot s) true (s_hasdot s), tmp)
-                else if is_digit dg then
-                  if (1844674407370955161 <? s_num s) || ((s_num s =? 1844674407370955161) && (ch_five <? dg))
-                  then (mkSt (s_off s) (s_rest s) (s_num s) dg (s_dot s) true (s_hasdot s), tmp)
-                  else
-                    let n1 := m64 (s_num s * 10 + dg - ch_zero) in
-                    let real1 := match r with
-                                 | [] => false
-                                 | d2 :: _ => (d2 =? ch_dot) || (d2 =? ch_e) || (d2 =? ch_ue) || is_digit d2
-                                 end in
-                    (mkSt (s_off s + 1) r n1 (match r with [] => dg | d2 :: _ => d2 end) (s_dot s) real1 (s_hasdot s), tmp + 1)
-                else (mkSt (s_off s) (s_rest s) (s_num s) dg (s_dot s) false (s_hasdot s), tmp)
-              end
-            else (s, tmp) in
-          let num := s_num s2 in
-          let int_result : option pres :=
-            if negb (s_isreal s2) then
-              if negb is_neg then Some (mkPres qn_natural num (s_off s2))
-              else if num =? 0 then Some (mkPres qn_real sign_bit (s_off s2))
-              else if num <=? sign_bit then Some (mkPres qn_integer (m64 (two64 - num)) (s_off s2))
-              else None
-            else None in
-          match int_result with
-          | Some p => Ok p
-          | None =>
-            let e_p10 := sub32 (sub32 tmp2 start) (b2n (negb fraconly && s_hasdot s2)) in
-            let e_n10 := if fraconly then add32 e_p10 (sub32 (sub32 start (s_dot s2)) 1)
-                         else if s_hasdot s2 then sub32 (sub32 (s_off s2) (s_dot s2)) 1 else 0 in
-            let old_dot := s_dot s2 in
-            let start2 := s_off s2 in
-            match tail_scan (s_rest s2) (mkTail (s_off s2) (s_hasdot s2) (s_dot s2) 0 0 false) with
-            | None => Ok (nan_res num 0)
-            | Some t =>
-              let off := t_off t in
-              let '(exponent1, negexp1) :=
-                if negb fraconly && negb (start2 =? off) then
-                  let extra :=
-                    if negb (t_hasdot t) then (if t_expoff t =? 0 then sub32 off start2 else sub32 (t_expoff t) start2)
-                    else if negb (t_dot t =? old_dot) then sub32 (t_dot t) start2 else 0 in
-                  if negb (t_negexp t) then (add32 (t_exp t) extra, false)
-                  else if t_exp t <=? extra then (sub32 extra (t_exp t), false)
-                  else (sub32 (t_exp t) extra, true)
-                else (t_exp t, t_negexp t) in
-              let '(exponent, negexp) :=
-                if negexp1 then (add32 exponent1 e_n10, true)
-                else if e_n10 <=? exponent1 then (sub32 exponent1 e_n10, false)
-                else (sub32 e_n10 exponent1, true) in
-              let fin (bits : N) := Ok (mkPres qn_real (if is_neg then N.lor bits sign_bit else bits) off) in
-              if num =? 0 then fin 0
-              else if negb negexp && (309 <? add32 exponent e_p10) then Ok (nan_res num off)
-              else if negexp then
-                if (e_p10 <? exponent) && (324 <? sub32 exponent e_p10) then Ok (nan_res num off)
-                else do b <- power_of_negative_ten num exponent; fin b
-              else
-                do ob <- power_of_positive_ten num exponent;
-                match ob with Some b => fin b | None => Ok (nan_res num off) end
-            end
-          end
+        | LOk s => stn_after is_neg start fraconly s
         end
       end
-    end
+  end.
+
+Definition string_to_number (content : list N) : res pres :=
+  match content with
+  | [] => Ok (nan_res 0 0)
+  | c0 :: r0 =>
+    let endo := N.of_nat (length content) in
+    if c0 =? ch_neg then stn_body true 1 r0 endo
+    else if c0 =? ch_pos then stn_body false 1 r0 endo
+    else stn_body false 0 content endo
   end.
 
 (* ------------------------------------------------------------------ *)
@@ -668,12 +678,16 @@ Definition real_to_string (fi : finfo) (pre : list N) (number precision0 fmt : N
               else Ok (b0, fl, shift));
            do b2 <- (if negb (times =? 0) then big_mul mi b1 (pow5 times) else Ok b1);
            Ok (N.shiftr b2 shift1, fl, round_up));
-      let started_at := blen s1 in
+      (* started_at = stream.Length(): the formatters address the stream relative to
+         it; the digit run is modelled on its own (started_at = 0) and an access
+         below started_at is an explicit error, so the text already in the stream
+         is untouched by construction whenever the result is Ok *)
       do ds <- big_to_string 80 b;
-      let buf := s1 ++ ds in
-      if fmt =? rf_semifixed then format_fixed false buf started_at precision digits fraction_length round_up
-      else if fmt =? rf_fixed then format_fixed true buf started_at precision digits fraction_length round_up
-      else format_default buf started_at precision digits fraction_length is_positive_exp round_up
+      do run <-
+        (if fmt =? rf_semifixed then format_fixed false ds 0 precision digits fraction_length round_up
+         else if fmt =? rf_fixed then format_fixed true ds 0 precision digits fraction_length round_up
+         else format_default ds 0 precision digits fraction_length is_positive_exp round_up);
+      Ok (s1 ++ run)
     else
       if (fmt =? rf_fixed) && negb (precision =? 0) then do z <- zeros precision; Ok (s1 ++ [ch_zero; ch_dot] ++ z)
       else Ok (s1 ++ [ch_zero])
